@@ -296,6 +296,7 @@ func (in *Interp) feasible(extra *Term) (Result, Model) {
 		in.restartSolver()
 		return Unknown, nil
 	}
+	in.ex.noteXQ(as, r)
 	if r == Unknown && in.ex.cfg.FallbackMs > 0 {
 		r2, m2, err := OneShot([]string{"cvc5", "--solve-bv-as-int=sum", fmt.Sprintf("--tlimit=%d", in.ex.cfg.FallbackMs)}, as, in.inputs, time.Duration(in.ex.cfg.FallbackMs)*time.Millisecond)
 		in.ex.noteFallback(r2)
